@@ -139,6 +139,11 @@ def gen_script(rnd, tier, state):
                 v = (state["vid"], old[0][1], old[0][2])                   # equal but distinct component, same info
                 info = old[1]
             # `@name`: the name is not passed; the component carries it as __component_name__ (named utilities / adapters)
+            if rnd.random() < 0.06:
+                # a name that is not a string: refused, and NOTHING may have been written (the observations that follow see to it)
+                L.append("regU|%s|%d|%s|%s" % (sv(v), p, rnd.choice(["#b", "#n", "#t"]), info))
+                L += observations()
+                continue
             L.append("regU|%s|%d|%s%s|%s" % (sv(v), p, "@" if rnd.random() < 0.2 else "", n, info))
             S.util[(p, n)] = (v, info)
         elif k < 0.42:
@@ -163,6 +168,10 @@ def gen_script(rnd, tier, state):
                 del S.util[(p, n)]
         elif k < 0.55:
             v = val(mix)
+            if rnd.random() < 0.06:
+                L.append("regA|%s|%s|%d|%s" % (sv(v), rs, p, rnd.choice(["#b", "#n", "#t"])))
+                L += observations()
+                continue
             L.append("regA|%s|%s|%d|%s%s" % (sv(v), mark(rs, v), p, "@" if rnd.random() < 0.2 else "", n))
             S.adap[(req, p, n)] = v
         elif k < 0.65:
@@ -306,6 +315,12 @@ def oracle(chk, lines, outs, known=None):
                     mixed_seen = True          # an unhashable utility equal to a hashable one in this history
             ret, _, ev = out.partition(" [")
             ev = ev.rstrip("]").split()
+            badname = (op == "regU" and f[3].startswith("#")) or (op == "regA" and f[4].startswith("#"))
+            if badname:
+                chk.count("registrations_under_a_non_string_name")
+                if ret != "ValueError" or ev:
+                    bad.append((i, "%s: a name that is not a string must be refused with ValueError and no event, got %s" % (line, out)))
+                continue          # ... and nothing was written: the listings and queries that follow are judged against the unchanged record
             chk.count("mutations")
             # the guard of the history theorems (C16Hist.HashClass): hashability is a function of the equality class
             chk.count("mutations_inside_theorem_guard" if not mixed_seen else "mutations_outside_theorem_guard")
